@@ -6,6 +6,8 @@
 # under /verif/seeded/<Cxx>-<i>/ (patch.diff, demo_test.go, notes.md, meta.json). /repo is never touched.
 id="$1"; i="$2"; shift 2
 src="/tmp/seed/$id/seeded/$i"
+# once the sub-agent's worktree is gone, re-verify from the stored copy
+[ -f "$src/patch.diff" ] || { src="$(mktemp -d /tmp/seedsrc.XXXXXX)"; cp /verif/seeded/$id-$i/patch.diff /verif/seeded/$id-$i/demo_test.go "$src/" 2>/dev/null; cp /verif/seeded/$id-$i/notes.md "$src/" 2>/dev/null; }
 [ -f "$src/patch.diff" ] || { echo "no patch at $src"; exit 2; }
 export GOFLAGS=-mod=mod GOPROXY=off GOSUMDB=off GOTOOLCHAIN=local
 d="$(mktemp -d /tmp/seedv.XXXXXX)"
